@@ -94,6 +94,19 @@ class ContinueParentStageHandler(StabilizeHandler[ContinueParentStage]):
 
         self.with_stage(message, on_stage)
 
+    @staticmethod
+    def _halted_children_status(children: list[StageExecution]) -> WorkflowStatus:
+        """Status of a parent whose synthetic stages halted.
+
+        Children that were merely CANCELED (the workflow or the parent is being
+        cancelled) cancel the parent, as determine_status() would report it; a
+        TERMINAL or STOPPED child fails it.
+        """
+        halted = {s.status for s in children if s.status in HALT_STATUSES}
+        if halted == {WorkflowStatus.CANCELED}:
+            return WorkflowStatus.CANCELED
+        return WorkflowStatus.TERMINAL
+
     def _handle_before_phase(
         self,
         stage: StageExecution,
@@ -116,7 +129,7 @@ class ContinueParentStageHandler(StabilizeHandler[ContinueParentStage]):
                 stage.name,
                 stage.id,
             )
-            self.set_stage_status(stage, WorkflowStatus.TERMINAL)
+            self.set_stage_status(stage, self._halted_children_status(before_stages))
             stage.end_time = self.current_time_millis()
             # Use atomic transaction to ensure state and message are committed together
             self.txn_helper.execute_atomic(
@@ -284,7 +297,7 @@ class ContinueParentStageHandler(StabilizeHandler[ContinueParentStage]):
                 stage.name,
                 stage.id,
             )
-            self.set_stage_status(stage, WorkflowStatus.TERMINAL)
+            self.set_stage_status(stage, self._halted_children_status(after_stages))
             stage.end_time = self.current_time_millis()
             self.txn_helper.execute_atomic(
                 stage=stage,
